@@ -311,6 +311,14 @@ func runC10(c *Ctx) {
 					if cnd, ok := rtCond[t]; ok {
 						siteCond = cnd
 					}
+					if isHandler && len(ps) >= 2 && rt == ps[1] && len(rts) > 1 {
+						// one handler registered for several record types: judged for each type with
+						// the type parameter being that type
+						siteCond = u.SubstBool(siteCond, map[string]*E{ps[1].key: u.ConstVal(constantInt(t), ps[1].Typ)})
+						if siteCond == False {
+							continue
+						}
+					}
 					want, needV := allowedVal[t]
 					if !needV {
 						if hasV {
